@@ -1,3 +1,243 @@
-/- C12 — property theorems (stub: the property is not claimed yet). -/
+/-
+  C12 — Formatter layout guarantees: indentation, minification, slim tags, stability.
+
+  Property theorems only (model: AHP/Model/Format.lean; lemmas: AHP/Lemmas/Format.lean, Squeeze.lean).
+  Quantification as in C11: every token sequence, every configuration; hypothesis: no element is named like the
+  invisible wrapper.
+-/
+import AHP.Lemmas.Format
 namespace AHP.C12
+open AHP AHP.Fmt
+
+/-! #### C12a — indentation -/
+
+/-- **C12a (tree level).**  In the tree the formatter serialises, every element outside pre/code carries
+    `_indent = "\n" ++ indent^depth`, `depth` being its number of proper ancestors other than the invisible wrapper
+    *recomputed from the finished tree* (`LayoutOK`), every element below pre/code carries none, and the mini classes
+    give none at all — whatever pushes, explicit pops and implicit pops the token sequence caused. -/
+theorem indentation_law (cfg : Cfg) (toks : List Tok) (h : NoWrapperStart toks) (s : St) (r : Node)
+    (hs : feed cfg toks = .ok s) (hr : s.root = some r) : LayoutOK cfg 0 false r := by
+  rw [feed_dec cfg toks h] at hs
+  cases hp : Plain.feed toks with
+  | error e => simp [hp, mapOk] at hs
+  | ok ps =>
+    simp only [hp, mapOk, Except.ok.injEq] at hs
+    rw [← hs, root_dec] at hr
+    cases hpr : ps.root with
+    | none => simp [hpr] at hr
+    | some r0 =>
+      simp only [hpr, Option.map_some, Option.some.injEq] at hr
+      rw [← hr]
+      exact layout_decorate cfg ⟨0, 0⟩ [] r0
+
+/-- the counters the formatter is left with are those of the elements still open: `currentIndentLevel` = number
+    of open elements other than the wrapper, `inPreformatted` = number of open pre/code elements -/
+theorem counters_are_stack_functions (cfg : Cfg) (toks : List Tok) (h : NoWrapperStart toks) (s : St)
+    (hs : feed cfg toks = .ok s) :
+    ∃ ps, Plain.feed toks = .ok ps ∧ s.level = ((ctxOf ps.stack).level : Int) ∧ s.inPre = ((ctxOf ps.stack).inPre : Int)
+      ∧ s.stack.length = ps.stack.length := by
+  rw [feed_dec cfg toks h] at hs
+  cases hp : Plain.feed toks with
+  | error e => simp [hp, mapOk] at hs
+  | ok ps =>
+    simp only [hp, mapOk, Except.ok.injEq] at hs
+    exact ⟨ps, rfl, by rw [← hs]; rfl, by rw [← hs]; rfl, by rw [← hs]; simp [decSt]⟩
+
+/-- In the output text the `_indent` is what precedes the start tag … -/
+theorem start_tag_after_indent (k : Kind) (n : Str) (st : AStore) (sc : Bool) (ind : Str) :
+    ∃ rest, startTag k n st sc ind = ind ++ rest ∧ rest.head? = some '<' := startTag_prefix k n st sc ind
+
+/-- … and the end tag of an element that is not self-closing, unless the element is pre/code or is script/style whose
+    content already ends with exactly that line break and indentation. -/
+theorem end_tag_after_indent (n ind : Str) (kids : List Node) (hpre : isPre n = false)
+    (hraw : isPreserve n = true → lastTextEndsWith ind kids = false) :
+    endTag n false ind kids = ind ++ str "</" ++ n ++ str ">" := by
+  rcases endTag_cases n ind kids with h | ⟨_, h | h⟩
+  · exact h
+  · rw [hpre] at h; cases h
+  · rw [hraw h.1] at h; cases h.2
+
+/-- C12a read off the output text: the start tag of an element that obeys the law outside pre/code, pretty classes, is
+    written as a line break, exactly `depth` copies of the indent unit, then `<` — the tag is the first thing on its line
+    (when the unit itself contains no line break). -/
+theorem start_tag_text_pretty (cfg : Cfg) (hm : cfg.mini = false) (depth : Nat) (k : Kind) (n : Str) (st : AStore)
+    (sc : Bool) (ind : Str) (kids : List Node) (h : LayoutOK cfg depth false (.elem k n st sc ind kids)) :
+    ∃ rest, startTag k n st sc ind = '\n' :: rep depth cfg.indent ++ '<' :: rest := by
+  have hind : ind = '\n' :: rep depth cfg.indent := by
+    have := h.1
+    simpa [hm] using this
+  obtain ⟨rest, h1, h2⟩ := startTag_prefix k n st sc ind
+  cases rest with
+  | nil => simp at h2
+  | cons c r =>
+    simp only [List.head?_cons, Option.some.injEq] at h2
+    subst h2
+    exact ⟨r, by rw [h1, hind]⟩
+
+/-! #### C12c — slim output = normal output without the space before `>` -/
+
+/-- C12c on one start tag -/
+theorem slim_start_tag (ssc : Bool) (n : Str) (st : AStore) (sc : Bool) (ind : Str) :
+    startTag .normal n st sc ind = ind ++ ('<' :: n ++ attrString st) ++ (if sc then str " />" else str " >")
+    ∧ startTag (.slim ssc) n st sc ind
+        = ind ++ ('<' :: n ++ attrString st) ++ (if sc then (if ssc then str "/>" else str " />") else str ">") :=
+  ⟨startTag_normal n st sc ind, startTag_slim ssc n st sc ind⟩
+
+/-- **C12c (document level).**  For the same tokens, indent unit and mini flag, the slim class fails exactly when the
+    normal class fails, and otherwise its output is the normal output piece by piece: text blocks, end tags and doctype
+    line identical, every start-tag piece with the space before `>` removed (before `/>` only with slimSelfClosing) —
+    in start tags only. -/
+theorem slim_output (cfg : Cfg) (hk : cfg.kind = .normal) (ssc : Bool) (toks : List Tok) (h : NoWrapperStart toks) :
+    (match feed cfg toks with
+     | .ok fn => ∃ fs, feed { cfg with kind := .slim ssc } toks = .ok fs ∧ fs.doctype = fn.doctype
+          ∧ (fn.root = none → fs.root = none)
+          ∧ ∀ r, fn.root = some r → ∃ r', fs.root = some r'
+              ∧ docHTML fn.doctype fn.root = .ok (flat (docPieces fn.doctype r))
+              ∧ docHTML fs.doctype fs.root = .ok (flat ((docPieces fn.doctype r).map (slimPiece ssc)))
+     | .error e => feed { cfg with kind := .slim ssc } toks = .error e) := by
+  rw [feed_dec cfg toks h, feed_dec { cfg with kind := .slim ssc } toks h]
+  cases hp : Plain.feed toks with
+  | error e => simp [mapOk]
+  | ok ps =>
+    simp only [mapOk]
+    refine ⟨_, rfl, rfl, ?_, ?_⟩
+    · intro hn
+      rw [root_dec] at hn ⊢
+      cases hr : ps.root with
+      | none => rfl
+      | some r0 => simp [hr] at hn
+    · intro r hr
+      rw [root_dec] at hr
+      cases hpr : ps.root with
+      | none => simp [hpr] at hr
+      | some r0 =>
+        simp only [hpr, Option.map_some, Option.some.injEq] at hr
+        have hcfg : cfg = { cfg with kind := .normal } := by cases cfg; simp_all
+        have e1 : r = setKind .normal (dec0 cfg r0) := by
+          rw [← hr]; unfold dec0
+          conv => lhs; rw [hcfg]
+          exact decorate_setKind cfg .normal _ _ r0
+        have e2 : dec0 { cfg with kind := .slim ssc } r0 = setKind (.slim ssc) (dec0 cfg r0) :=
+          decorate_setKind cfg (.slim ssc) _ _ r0
+        refine ⟨setKind (.slim ssc) (dec0 cfg r0), by rw [root_dec, hpr, Option.map_some, e2], ?_, ?_⟩
+        · rw [root_dec, hpr, Option.map_some, hr]; exact docHTML_eq_flat _ _
+        · rw [root_dec, hpr, Option.map_some, e2, docHTML_eq_flat, e1]
+          show Except.ok (flat (docPieces ps.doctype _)) = _
+          rw [docPieces_slim]
+          rfl
+
+/-- the slim classes are the normal classes with the other element class: with the same explicit indent argument,
+    `AdvancedHTMLSlimTagFormatter` / `…SlimTagMiniFormatter` are configured like `AdvancedHTMLFormatter` /
+    `…MiniFormatter` except for `kind` (so `slim_output` applies to the four shipped classes) -/
+theorem slim_classes (ind : IndentArg) (hi : ind ≠ .dflt) (ssc : Bool) :
+    mkCfg .slim ind ssc = { mkCfg .pretty ind ssc with kind := .slim ssc } ∧ (mkCfg .pretty ind ssc).kind = .normal
+    ∧ mkCfg .slimMini ind ssc = { mkCfg .mini ind ssc with kind := .slim ssc } ∧ (mkCfg .mini ind ssc).kind = .normal := by
+  cases ind with
+  | dflt => exact absurd rfl hi
+  | str s => simp [mkCfg, indentOf]
+  | int i => simp [mkCfg, indentOf]
+
+/-- what the surgery does to the two shapes a start tag can have -/
+theorem slim_surgery (ssc : Bool) (x : Str) :
+    slimSurgery ssc (x ++ str " >") = x ++ str ">"
+    ∧ slimSurgery ssc (x ++ str " />") = x ++ (if ssc then str "/>" else str " />") :=
+  ⟨slimSurgery_open ssc x, slimSurgery_selfclosed ssc x⟩
+
+/-! #### C12b — mini output carries no indentation -/
+
+/-- the mini classes give no element an `_indent` (special case of the indentation law, spelled out) -/
+theorem mini_no_indent (cfg : Cfg) (hm : cfg.mini = true) (c : Ctx) : indentAt cfg c = [] := by
+  unfold indentAt getIndent
+  by_cases h0 : c.inPre = 0 <;> simp [h0, hm]
+
+/-- C12b: a data piece outside preserved content comes out without a tab … -/
+theorem squeezed_has_no_tab (s : Str) : ∀ c ∈ squeeze s, c ≠ '\t' := squeeze_noTab s
+
+/-- … and neither begins nor ends with a line break (CR or LF). -/
+theorem squeezed_has_no_outer_line_break (s : Str) :
+    (∀ c, (squeeze s).head? = some c → isCRLF c = false) ∧ (∀ c, (squeeze s).getLast? = some c → isCRLF c = false) :=
+  squeeze_ends s
+
+/-- C12b/C12d core: the data rule is idempotent. -/
+theorem squeeze_idempotent (s : Str) : squeeze (squeeze s) = squeeze s := squeeze_idem s
+
+/-- **C12b / C12d (tree level).**  Decorating an already decorated tree changes nothing — for every class, context and
+    tree: the same elements get the same `_indent` (a function of the ancestors' names only) and every squeezed data block
+    is a fixed point of the data rule.  With `formatter_tree_is_decorated` (C11) this is "formatting the formatter's own
+    tree again gives the same tree"; for the mini classes, whose output adds no text, it is the fixed-point statement up to
+    re-tokenisation of the output (see `…_partial` below). -/
+theorem reformat_tree_fixed_point (cfg : Cfg) (c : Ctx) (p : Str) (t : Node) :
+    decorate cfg c p (decorate cfg c p t) = decorate cfg c p t := decorate_idem cfg c p t
+
+/-! #### C12d — stability from the second pass on -/
+
+/-- **C12d key lemma** (DESIGN §5).  In pass k+1 a text region is the pieces pass k wrote followed by the indent `I`
+    (a line break, then spaces/tabs) pass k put before the next tag; only the last data piece `d` (possibly empty) meets
+    `I`, the tokenizer hands the formatter `d ++ I` as one piece.  From the second pass on that piece is stable:
+    `sq (sq (d ++ I) ++ I) = sq (d ++ I)`, for every `d` and every such `I`.  (Pass 1 → 2 is not covered and not stable:
+    pass 1 sees `d`, pass 2 sees `sq d ++ I` — which is why the property says "from the second pass on".) -/
+theorem indent_piece_stable (d i : Str) (hi : IsIndent i) : squeeze (squeeze (d ++ i) ++ i) = squeeze (d ++ i) :=
+  squeeze_indent_stable d i hi
+
+/-- every `_indent` the pretty classes produce with a spaces/tabs indent unit is such an `I` -/
+theorem getIndent_isIndent (cfg : Cfg) (hm : cfg.mini = false) (hu : ∀ c ∈ cfg.indent, c = ' ' ∨ c = '\t') (level : Int) :
+    IsIndent (getIndent cfg level) := by
+  unfold getIndent
+  simp only [hm, Bool.false_eq_true, if_false]
+  refine ⟨_, rfl, ?_⟩
+  generalize level.toNat = n
+  induction n with
+  | zero => simp [rep]
+  | succ k ih =>
+    intro c hc
+    simp only [rep, List.mem_append] at hc
+    rcases hc with hc | hc
+    · exact hu c hc
+    · exact ih c hc
+
+/-!
+  #### What is partial
+
+  * `pretty_stable_partial` / `mini_fixed_point_partial` (string level, not stated as theorems): `pretty³ = pretty²` and
+    `mini (mini x) = mini x` on output *text*.  Proved here: the tree-level fixed point (`reformat_tree_fixed_point`), that
+    depth and preformatted-ness of every position depend on the tree only (`formatter_tree_is_decorated`, C11), and the two
+    facts about the one piece of text that changes between passes (`squeeze_idempotent`, `indent_piece_stable`).  Missing:
+    the character-level lexer (another group's Model/Lexer) to show that the output text tokenizes back into the tree's
+    blocks with each `_indent` glued to the preceding data piece, and the position-wise induction over the token list that
+    uses the lemmas above.  The tie runs passes 1–3 of every case through model and library and the oracle checks
+    `pass 3 = pass 2`, `mini² = mini` on the real code.
+  * C12a over the output *string* (an independent `layoutOf : text → (depth, column)*`): the tree-level law is proved
+    (`indentation_law`) together with `start_tag_after_indent` / `end_tag_after_indent`; recomputing depth from the text again
+    needs the lexer.  The oracle does exactly that on the real output with the real tokenizer.
+-/
+
+/-- Known finding `C12-mini-dropped-markup`, the instance: two data pieces that are adjacent in the *output* because the
+    markup between them was dropped (stray end tag, PI) are squeezed separately; together they are not a fixed point.
+    (`'<div> </zzz> b</div>'` → `<div >  b</div>` → `<div > b</div>`: the blank first piece becomes the leading white
+    space of the merged piece.) -/
+theorem mini_dropped_markup_counterexample :
+    squeeze (squeeze (str " ") ++ squeeze (str " b")) ≠ squeeze (str " ") ++ squeeze (str " b") := by decide
+
+/-- Why the hypothesis `NoWrapperStart`: an element that carries the reserved wrapper name in the *input* is not counted
+    when opened but is counted when closed implicitly, so what follows is indented one level too little (`<u>` below
+    `<div>` at column 0).  The property excludes the reserved name (DESIGN §8 #21). -/
+theorem reserved_name_breaks_the_law :
+    okIs (format (mkCfg .pretty (.str (str "  ")) false)
+      [.start (str "div") [], .start (str "b") [], .start (str "xxxblank") [], .end_ (str "b"), .start (str "u") []])
+      "\n<div >\n  <b >\n    <xxxblank >\n    </xxxblank>\n  </b>\n<u >\n</u>\n</div>" = true := by decide +kernel
+
+/-! #### non-vacuity -/
+
+def sampleToks : List Tok :=
+  [.start (str "ul") [], .start (str "li") [], .data (str "a"), .start (str "li") [], .data (str "b\n"),
+   .startend (str "pre") [], .start (str "br") [], .end_ (str "ul"), .data (str "\n")]
+
+example : NoWrapperStart sampleToks := by decide
+/-- implicit closes (`li`, `li`) are dedented, the self-closed `pre` does not switch indentation off -/
+example : okIs (format (mkCfg .pretty (.str (str "  ")) false) sampleToks)
+    "\n<ul >\n  <li >a\n    <li >b\n      <pre />\n      <br />\n    </li>\n  </li>\n</ul>" = true := by decide +kernel
+example : okIs (format (mkCfg .slim (.str (str "  ")) true) sampleToks)
+    "\n<ul>\n  <li>a\n    <li>b\n      <pre/>\n      <br/>\n    </li>\n  </li>\n</ul>" = true := by decide +kernel
+example : okIs (format (mkCfg .mini .dflt false) sampleToks) "<ul ><li >a<li >b<pre /><br /></li></li></ul>" = true := by decide +kernel
+
 end AHP.C12
